@@ -79,6 +79,21 @@ def run(res, tier, seed):
             cases.append((body.replace("{USE}", f.replace("{L}", "next")), ("ok", None)))
         cases.append((body.replace("{USE}", f.replace("{L}", "nowhere")) + "    " + f.replace("{L}", "elsewhere") + "\n",
                       ("undefined", {"nowhere", "elsewhere"})))
+    # the "forgot .text" mistake: code placed after `.data` — every label is defined, so the analysis
+    # must run (and explain the mistake with located `invalid segment` items), not stop
+    for _ in range(12 if tier == "quick" else 300):
+        s, _ = prog.program(rng, sloppy=0, multi_ret=False)
+        lines_ = [l for l in s.split("\n") if l.strip() != ".text"]
+        k = rng.choice(["top", "before-main", "inside"])
+        if k == "top":
+            lines_ = [".data"] + lines_
+        elif k == "before-main":
+            i_ = next((j for j, l in enumerate(lines_) if l.startswith("main:")), 0)
+            lines_ = lines_[:i_] + [".data", "buf9: .word 1"] + lines_[i_:]
+        else:
+            i_ = rng.randrange(1, max(2, len(lines_) - 1))
+            lines_ = lines_[:i_] + [".data"] + lines_[i_:]
+        cases.append(("\n".join(lines_), ("ok", None)))
     inputs = [[("m.s", t)] for t, _ in cases]
     impl, models, bad = correspondence("parse,cfg,run", inputs)
     first = None
